@@ -855,7 +855,7 @@ class _Gen:
             dmid, qual, kind = s.defs[uid]
             D, R = s.modname(dmid), s.modname(rmid)
             name = qual
-            for style in r.sample(['from-D', 'from-R', 'import-D', 'import-R', 'both', 'star-D', 'star-R'], r.randint(1, 4)):
+            for style in r.sample(['from-D', 'from-R', 'import-D', 'import-R', 'both', 'star-D', 'star-R', 'both-same'], r.randint(1, 4)):
                 cu = self.new_uid()
                 prefix = r.choice(['a', 'z', 'm'])
                 cm = Mod(len(s.mods), f'{prefix}cons{cu}', root.mid, False, order=10 ** 5 + cu)
@@ -867,6 +867,11 @@ class _Gen:
                 if style in ('from-R', 'both'):
                     lines.append(f'from {R} import {exported} as R{cu}')
                     refs.append((f'R{cu}', 'name'))
+                if style == 'both-same':
+                    # the same local name imported twice, from the defining module first: the later import is the binding
+                    lines.append(f'from {D} import {name} as B{cu}')
+                    lines.append(f'from {R} import {exported} as B{cu}')
+                    refs.append((f'B{cu}', 'name'))
                 if style == 'star-D' and not name.startswith('_') and not s.notes.get(('all', dmid)):
                     lines.append(f'from {D} import *')
                     refs.append((name, 'name'))
